@@ -125,7 +125,7 @@ class Interp:
                     return
             self.ev(c, env)
             return
-        if isinstance(st, (ast.Pass, ast.Assert, ast.AugAssign, ast.AnnAssign)):
+        if isinstance(st, (ast.Pass, ast.Assert, ast.AugAssign, ast.AnnAssign, ast.Import, ast.ImportFrom, ast.Global, ast.Nonlocal)):
             return
         raise AnalysisError(f"interpreter: unsupported statement {type(st).__name__} at line {st.lineno}")
 
@@ -200,7 +200,21 @@ class Interp:
             a, b = self.ev(e.left, env), self.ev(e.right, env)
             if isinstance(a, (int, bool)) and isinstance(b, (int, bool)):
                 return a + b
-            raise AnalysisError("interpreter: `+` on non-numbers")
+            if isinstance(a, str) and isinstance(b, str):
+                return a + b
+            if isinstance(a, (list, tuple)) and isinstance(b, (list, tuple)):
+                return list(a) + list(b)
+            raise AnalysisError("interpreter: unsupported `+`")
+        if isinstance(e, ast.BinOp) and isinstance(e.op, ast.Mult):
+            a, b = self.ev(e.left, env), self.ev(e.right, env)
+            if isinstance(a, list) and isinstance(b, int):
+                return a * b
+            raise AnalysisError("interpreter: unsupported `*`")
+        if isinstance(e, ast.JoinedStr):
+            out = ""
+            for v in e.values:
+                out += str(v.value) if isinstance(v, ast.Constant) else str(self.ev(v.value, env))
+            return out
         if isinstance(e, ast.Compare) and len(e.ops) == 1:
             a, b = self.ev(e.left, env), self.ev(e.comparators[0], env)
             op = e.ops[0]
@@ -235,6 +249,20 @@ class Interp:
                 return len(self.ev(e.args[0], env))
             if fn == "bool" and len(e.args) == 1:
                 return self.truth(self.ev(e.args[0], env))
+            if isinstance(e.func, ast.Attribute) and e.func.attr in ("join", "format"):
+                try:
+                    recv = self.ev(e.func.value, env)
+                except AnalysisError:
+                    recv = None
+                if isinstance(recv, str):
+                    if e.func.attr == "join" and len(e.args) == 1:
+                        a0 = e.args[0]
+                        vals = self.comp(a0, env) if isinstance(a0, (ast.GeneratorExp, ast.ListComp)) else list(self.ev(a0, env))
+                        return recv.join(str(v) for v in vals)
+                    if e.func.attr == "format" and not e.keywords:
+                        return recv.format(*[self.ev(a, env) for a in e.args])
+            if fn == "map" and len(e.args) == 2 and dotted(e.args[0]) in self.stubs:
+                return [self.stubs[dotted(e.args[0])](v) for v in self.ev(e.args[1], env)]
             if isinstance(e.func, ast.Attribute) and e.func.attr == "opposite" and not e.args:
                 v = self.ev(e.func.value, env)
                 return {"LESS": "MORE", "MORE": "LESS"}.get(v, v)
